@@ -8,6 +8,7 @@ import (
 	"path/filepath"
 	"time"
 
+	"github.com/btcsuite/btcd/chaincfg/v2"
 	"github.com/btcsuite/btcd/chainhash/v2"
 	"github.com/btcsuite/btcd/wire/v2"
 
@@ -163,6 +164,18 @@ type Spec struct {
 	// Fault: the FaultK-th call of the named store write fails.
 	Fault  string `json:"fault,omitempty"`
 	FaultK int    `json:"fault_k,omitempty"`
+
+	// Hard-coded checkpoints of the case's network (see cp.go). FilterCPs:
+	// heights (>= 1) at which a hard-coded FILTER-header checkpoint is in
+	// force while the case runs; its value is the filter header the stores
+	// are pre-filled with and an agreeing file carries, except at the heights
+	// also listed in FilterCPAlt, where it is a value neither the stores nor
+	// any file carry. BlockCPs: heights at which the chain parameters carry a
+	// BLOCK checkpoint (the master chain's hash); empty = a network without
+	// block checkpoints.
+	FilterCPs   []int `json:"filter_checkpoint_heights,omitempty"`
+	FilterCPAlt []int `json:"filter_checkpoint_alt_value_heights,omitempty"`
+	BlockCPs    []int `json:"block_checkpoint_heights,omitempty"`
 }
 
 func (s *Spec) end() int { return s.Start + s.Len - 1 }
@@ -174,12 +187,18 @@ type material struct {
 	storeBlocks []wire.BlockHeader // by height 0..BT
 	fileBlocks  []wire.BlockHeader // for heights Start..
 	note        string
+	// p are the chain parameters the case runs under (the world's, or a
+	// private copy carrying the case's checkpoints); cps the hard-coded
+	// filter-header checkpoints in force for p.Net.
+	p   *chaincfg.Params
+	cps map[int]chainhash.Hash
 }
 
 // build makes the headers for a spec. It uses the world's generator and must
 // only be called from the single producer goroutine.
 func (w *world) build(sp Spec) *material {
 	m := &material{spec: sp, w: w}
+	m.p, m.cps = w.caseParams(&sp), w.cpTable(&sp)
 	g := w.g
 	// The side branches and invalid headers of a case depend on the run
 	// seed and the case index only, not on which cases were built before.
